@@ -86,6 +86,7 @@ class _Data(object):
 class WriterMarkers(Obligation):
     mode = 'int'
     validate_paths = 3
+    encoding_fragile = True          # AST-extracted expressions
     name = 'writer-header-markers[uamiv]'
     bounds = {'nspec': 'unbounded'}
     stubs = ('np.array(...).astype (value box)',)
@@ -333,6 +334,10 @@ class WriterLoop(Obligation):
              'call)', 'np.array / np.ma.filled / np.char.strip / '
              'ndarray.astype value boxes')
     any_violation_confirms = True
+    encoding_fragile = True          # AST-extracted loop on stub objects
+
+    def fallback_inputs(self):
+        return [{}, {'nx': 1, 'ny': 1}, {'nx': 7, 'ny': 5}]
 
     def __init__(self, srcdt, nspec, nz):
         self.srcdt, self.nspec, self.nz = srcdt, nspec, nz
@@ -430,6 +435,9 @@ class WriterLoop(Obligation):
 
 class FullSizeMemmap(c14.CutUamiv):
     """memmap reader at the full file length: exactly T steps"""
+
+    def fallback_inputs(self):
+        return [{'T': 1}, {'T': 2}, {'T': 5}]
 
     def __init__(self, nspec, nz, ny, nx, fname='AVERAGE'):
         c14.CutUamiv.__init__(self, nspec, nz, ny, nx, None, fname)
